@@ -968,6 +968,18 @@ class AclMachine(Machine):
             j += len(run)
         if j != len(post):
             self._fail("C19", "C19.position", f"extra entries after splitting ({len(post)} vs {j})")
+        # independent cross-check: every witness packet keeps its first-match decision
+        npk = 0
+        for r in pre:
+            if not needs_split(r) or npk > 4000:
+                continue
+            for pkt in witness_packets(r):
+                a, b = first_match(pre, pkt), first_match(post, pkt)
+                npk += 1
+                if a is not None and b is not None and a != b:
+                    self._fail("C19", "C19.decision", f"packet {pkt} is decided {a} before and "
+                                                      f"{b} after the split")
+        self.probes["witness_packets"] += npk
 
     @staticmethod
     def _union_equals(pairs, o_sp, o_dp) -> bool:
